@@ -8,7 +8,7 @@ sentence evaluated on the interleaved log of requests and body start/end marks."
 import json, itertools, os
 
 ID = 'C13'
-COQ_ROOTS = ['Props/C13.v']
+COQ_ROOTS = ['Props/C13.v', 'GenProps/RpcErrors_consts.v', 'GenProps/LockCtx_consts.v']
 RULE = ('programs over Ret | Raise | Req(lock/unlock/get-config, datastore) | Seq | Locked(datastore, body) | Try, compiled to '
         'real with-blocks; every program of size <= N over the alphabet {pass, raise, get-config} x {locked(running), '
         'locked(candidate), try} x Seq (Seq right-nested, the semantics being associative) is run against every answer '
